@@ -73,7 +73,10 @@ def check(run):
                    'artefact write is reached only under %s' % ('; '.join(g.text() for g in dg) if dg else
                                                                ('a missing-file handler' if exc else 'NO difference predicate: ' + e.describe())),
                    fn=m, node=e.node, detail={'guards': [g.text() for g in e.guards]})
-    run.floor('C15-TMPDIR', n_t, 12)
+    # not a count of sites (a loop over the two sides writes both files from one site): each of the three text assertions must have
+    # been followed down to its artefact writes (the binary one writes nothing: its contents are never handed over)
+    reached = {o.key.split('::')[1] for o in run.obs if o.rule == 'C15-TMPDIR' and '::open-write' in o.key}
+    run.floor('C15-TMPDIR', len(reached & {'ReferenceTest.' + n for n in TEXT_ASSERTS[:3]}), 3)
     fc = p.cls('FilesComparison')
     fns = [fc.methods[n] for n in ('check_strings', 'add_failures', 'wrong_number', 'wrong_content', 'reconstruct',
                                    'check_string_against_file', 'check_binary_file') if n in fc.methods]
@@ -328,6 +331,22 @@ def sameguide(run, p, fc):
             texts = {norm(g) for s, g in guides}
             run.ob('C15-SAMEGUIDE', '%s::%s::line%s' % (f.rel, f.short, ''), len(texts) == 1,
                    '%d post-processed files written with guide %s' % (len(guides), ' / '.join(sorted(texts))), fn=f, node=guides[0][0])
+    # the same pair written by one call in a loop over the two sides: one guide expression by construction, as long as it does
+    # not depend on the side
+    for lp in ast.walk(f.node):
+        if not isinstance(lp, ast.For):
+            continue
+        tg = {x.id for x in ast.walk(lp.target) if isinstance(x, ast.Name)}
+        bound = tg | {x.id for st in lp.body for x in ast.walk(st) if isinstance(x, ast.Name) and isinstance(x.ctx, ast.Store)}
+        for s2 in lp.body:
+            if isinstance(s2, ast.Expr) and isinstance(s2.value, ast.Call) and isinstance(s2.value.func, ast.Attribute) and s2.value.func.attr == 'write_file':
+                g = [k.value for k in s2.value.keywords if k.arg == 'guide']
+                if g:
+                    n += 1
+                    dep = {x.id for x in ast.walk(g[0]) if isinstance(x, ast.Name)} & bound
+                    run.ob('C15-SAMEGUIDE', '%s::%s::line%s' % (f.rel, f.short, ''), not dep,
+                           'post-processed files written in a loop with guide %s%s' % (norm(g[0]), '' if not dep else ', which changes with %s' % sorted(dep)),
+                           fn=f, node=s2)
     run.floor('C15-SAMEGUIDE', n, 1)
 
 
